@@ -101,7 +101,9 @@ def extract(g, X):
             m = re.search(r"XRef::" + name + r"\s*\{[^}]*\}\s*=>\s*\((\d+),", b)
             codes.append(int(m.group(1)))
         # the two field widths, whatever the locals are called: `let A = byte_len(..); let B = byte_len(..);`
-        aw, bw = re.findall(r"let\s+(\w+)\s*=\s*byte_len\(\s*\w+\s*\)\s*;", b)
+        (aw, ma), (bw, mb) = re.findall(r"let\s+(\w+)\s*=\s*byte_len\(\s*(\w+)\s*\)\s*;", b)
+        if not re.search(r"let\s*\(\s*" + ma + r"\s*,\s*" + mb + r"\s*\)\s*=\s*self\.max_field_widths\(\)", b):
+            raise ValueError("the widths are not (second field, third field) of max_field_widths()")
         w = re.search(r"\bw\s*:\s*vec!\[\s*(\d+)\s*,\s*" + aw + r"\s*,\s*" + bw + r"\s*\]", b).group(1)
         im = re.search(r"\bindex\s*:\s*vec!\[\s*(\d+)\s*,\s*([^\],]+?)\s*\]", b)
         if not X.is_alias(im.group(2), size, b):
